@@ -12,6 +12,7 @@ mod oracle;
 mod pgram;
 mod robots;
 mod scene;
+mod shape;
 mod singular;
 mod solver;
 mod stack;
@@ -40,6 +41,7 @@ fn main() {
         ("replay", "tasks") => collide::replay_tasks(&args[3], &args[4]),
         ("record", "collision") => collide::record_geometry(&args[3]),
         ("record", "offsets") => collide::record_offsets(&args[3]),
+        ("record", "shape") => shape::record(&args[3]),
         ("record", "ik") => solver::record(&args[3], &args[4]),
         ("record", "follow") => solver::record_follow(&args[3]),
         _ => {
